@@ -277,12 +277,18 @@ def minkowski_rules(db, chk, cfg, rule="MINK"):
     for val in (True, False):
         ops = []
 
-        def collect(node):
+        def mentions_flag(e):
+            return any(y.get("kind") == "DeclRefExpr" and y.get("referencedDecl", {}).get("name") == isSum for y in walk(e))
+
+        def collect(node, selected=False):
             for c in kids(node):
                 if not isinstance(c, dict):
                     continue
-                if c.get("kind") == "IfStmt" and any(y.get("kind") == "DeclRefExpr" and y.get("referencedDecl", {}).get("name") == isSum for y in walk(if_parts(c)[0])):
-                    cond, then, els = if_parts(c)
+                if c.get("kind") in ("IfStmt", "ConditionalOperator") and mentions_flag(if_parts(c)[0] if c.get("kind") == "IfStmt" else kids(c)[0]):
+                    if c.get("kind") == "IfStmt":
+                        cond, then, els = if_parts(c)
+                    else:
+                        cond, then, els = kids(c)[0], kids(c)[1], kids(c)[2]
                     try:
                         t = Interp(db, {isSum: val}).ev(cond)
                     except Unsupported:
@@ -290,14 +296,15 @@ def minkowski_rules(db, chk, cfg, rule="MINK"):
                         continue
                     br = then if t else els
                     if br is not None:
-                        collect({"inner": [br]})
+                        collect({"inner": [br]}, True)
                     continue
-                if c.get("kind") == "CXXOperatorCallExpr" and db.callee(c)[0] in ("operator+", "operator-") and "Point<" in dqt(c):
+                # only operators inside a branch selected by isSum combine path and pattern points
+                if selected and c.get("kind") == "CXXOperatorCallExpr" and db.callee(c)[0] in ("operator+", "operator-") and "Point<" in dqt(c):
                     a0, a1 = db.call_args(c)[:2]
                     patterny = lambda e: pat in canon(e) or any(y.get("kind") == "DeclRefExpr" and y.get("referencedDecl", {}).get("kind") == "ParmVarDecl"
                                                                and y.get("referencedDecl", {}).get("name") not in (pat, path) for y in walk(e))
                     ops.append((db.callee(c)[0][-1], patterny(a0), patterny(a1)))
-                collect(c)
+                collect(c, selected)
         collect(f.body)
         ops = sorted(set(ops), key=repr)         # a lambda's body occurs twice in clang's dump (closure type and expression)
         sign_seen[val] = ops
